@@ -2,6 +2,7 @@ package harness
 
 import (
 	"fmt"
+	"k8s.io/apimachinery/pkg/api/resource"
 	metav1 "k8s.io/apimachinery/pkg/apis/meta/v1"
 	"os"
 	"sort"
@@ -73,6 +74,17 @@ func drawC04(t *rapid.T) *c04Scenario {
 		s.Extra = append(s.Extra, p)
 	}
 	s.MidWindow = dpct(t, 20, "midWindowClaim")
+	// finished pods that still sit on their nodes and asked for a lot: the room they held is free again
+	for i, nd := range s.World.Nodes {
+		if dpct(t, 35, fmt.Sprintf("node%d_finishedPod", i)) {
+			p := sim.Bound(&corev1.Pod{ObjectMeta: metav1.ObjectMeta{Name: fmt.Sprintf("done-%02d", i), Namespace: "default", UID: types.UID(fmt.Sprintf("done-uid-%02d", i)), Labels: map[string]string{"app": "job"},
+				OwnerReferences: []metav1.OwnerReference{{APIVersion: "batch/v1", Kind: "Job", Name: "job", UID: "job-uid", Controller: lo_ptr(true)}}},
+				Spec: corev1.PodSpec{Tolerations: []corev1.Toleration{{Operator: corev1.TolerationOpExists}}, Containers: []corev1.Container{{Name: "c", Image: "img", Resources: corev1.ResourceRequirements{Requests: corev1.ResourceList{
+					corev1.ResourceCPU: resource.MustParse(rapid.SampledFrom([]string{"500m", "1", "2", "3500m"}).Draw(t, fmt.Sprintf("node%d_finishedCPU", i))), corev1.ResourceMemory: resource.MustParse("1Gi")}}}}}}, nd.Name)
+			p.Status.Phase = rapid.SampledFrom([]corev1.PodPhase{corev1.PodSucceeded, corev1.PodFailed}).Draw(t, fmt.Sprintf("node%d_finishedPhase", i))
+			s.World.Bound = append(s.World.Bound, p)
+		}
+	}
 	return s
 }
 
@@ -180,6 +192,20 @@ func execC04(s *c04Scenario, c *ev.Ctx) {
 		b.Originals[p.UID] = p.DeepCopy()
 	}
 	w.Sync()
+	// every node that was there from the start reports in once more between the passes (a kubelet heartbeat that
+	// touches the object): the cluster state rebuilds the node's usage from the pods bound to it
+	for _, nd := range s.World.Nodes {
+		if w.UpdateNode(nd.Name, func(n *corev1.Node) {
+			if n.Annotations == nil {
+				n.Annotations = map[string]string{}
+			}
+			n.Annotations["sim.verif/heartbeat"] = "2"
+		}) != nil {
+			// only this Node event is delivered (informers deliver changes, not the whole cluster again)
+			_, _ = w.InformerDeliver("Node", types.NamespacedName{Name: nd.Name})
+			c.Count("existing_node_heartbeat")
+		}
+	}
 	extra := map[types.UID]bool{}
 	for _, p := range s.Extra {
 		extra[p.UID] = true
@@ -476,7 +502,7 @@ var _ = pscheduling.MaxInstanceTypes
 
 var propC04 = ev.Prop[c04Scenario]{
 	ID: "C04", Test: "TestC04",
-	Rule: "rapid draws a scheduler world without inter-pod constraints, preferences, soft taints, minValues, limits or reservations; pass 1 (Provisioner.Schedule + CreateNodeClaims) runs; every created NodeClaim is driven by the REAL lifecycle controller to a generated point (unlaunched, launched, node present unregistered, registered with startup taints / unreported resources, initialized, initialized+pods bound) with a generated provider launch choice; 0-3 extra pods arrive; pass 2 runs; " +
+	Rule: "rapid draws a scheduler world without inter-pod constraints, preferences, soft taints, minValues, limits or reservations; pass 1 (Provisioner.Schedule + CreateNodeClaims) runs; every created NodeClaim is driven by the REAL lifecycle controller to a generated point (unlaunched, launched, node present unregistered, registered with startup taints / unreported resources, initialized, initialized+pods bound) with a generated provider launch choice; 0-3 extra pods arrive; every pre-existing node (10% of whose bound pods are Succeeded / Failed) reports in once more; pass 2 runs; " +
 		"oracle: (i) no pod given capacity in pass 1 gets another NodeClaim or an error in pass 2, (ii) an extra pod gets a new NodeClaim only if no active existing / in-flight node admits it in the final state (admission oracle of C01), (iii) with an unlaunched NodeClaim present Provisioner.Reconcile creates nothing, also (20% of the cases) when another controller creates that NodeClaim while the pass sits in its batching window, (iv) nodes marked for deletion receive no pods, plus the C01 oracle on pass 2; " +
 		"non-trivial = pass 2 ran with >=1 in-flight NodeClaim (not yet bound) that holds >=1 pod",
 	Assumptions: []string{"limits, minValues, reservations, preferences and inter-pod constraints are excluded because the code legitimately re-opens capacity there"},
